@@ -340,6 +340,17 @@ def idn_domains(tier, rng, mdl):
             U = ".".join(labs).encode("utf-8")
             A = b".".join(to_alabel(l) for l in labs)
         out.append((U, A))
+    # upper-/mixed-case A-label spellings (DNS names are case-insensitive; libidn2 lower-cases): same treatment as the U spelling
+    for (U, A) in list(out[:400 if tier == "quick" else 6000]):
+        if b"xn--" in A:
+            out.append((U, A.upper()))
+            out.append((U, randcase(A, rng)))
+    # labels mixing scripts (no IDNA2008 rule forbids it) and digits inside non-ASCII labels
+    for i in range(150 if tier == "quick" else 3000):
+        a, b = rng.sample([s for s in scripts if s not in RTL], 2)
+        lab = idn_label(rng, a, False) + idn_label(rng, b, False) + rng.choice(["", "7", "x"])
+        t = rng.choice(ascii_tlds)
+        out.append((lab.encode("utf-8") + b"." + t, to_alabel(lab) + b"." + t))
     # IDNA full-stop variants (U+3002, U+FF0E, U+FF61) as separators and as root label: same name as with '.'
     for i in range(40 if tier == "quick" else 600):
         script = scripts[i % len(scripts)]
